@@ -20,7 +20,7 @@ type menus struct {
 	ldDeltas []int
 	realSc   []complex128
 	cmplxSc  []complex128
-	fills    []uint64
+	fills    []fillSpec
 	band     func(n int) []int // band widths for an extent n
 }
 
@@ -34,8 +34,9 @@ func tierMenus(g *vlib.G) *menus {
 			ldDeltas: []int{0, 1, 3},
 			realSc:   []complex128{0, 1, -1, 2, 0.5},
 			cmplxSc:  []complex128{0, 1, 1i, -1 + 2i, 0.5},
-			fills:    []uint64{0, 1, 2 + 2*uint64(g.Seed&0xffffff)},
-			band:     func(n int) []int { return dedup([]int{0, 1, 2, n - 1, n + 1}) },
+			fills: []fillSpec{{0, 0, false}, {1, 2, false}, {2, 2, true},
+				{3 + uint64(g.Seed&0xffffff), 0, true}},
+			band: func(n int) []int { return dedup([]int{0, 1, 2, n - 1, n + 1}) },
 		}
 	}
 	return &menus{
@@ -46,7 +47,7 @@ func tierMenus(g *vlib.G) *menus {
 		ldDeltas: []int{0, 2},
 		realSc:   []complex128{0, 1, 2, 0.5},
 		cmplxSc:  []complex128{0, 1, -1 + 2i, 0.5},
-		fills:    []uint64{0, 1},
+		fills:    []fillSpec{{0, 0, false}, {1, 2, true}},
 		band:     func(n int) []int { return dedup([]int{0, 1, n + 1}) },
 	}
 }
@@ -257,7 +258,7 @@ func runCase(t *vlib.T, cs *caseSpec, mn *menus, inv invoker, reduced bool) {
 	if reduced { // wrapper groups: a reduced product
 		incs = []int{1, 2}
 		lds = []int{1}
-		fills = fills[:1]
+		fills = []fillSpec{{0, 0, false}, {1, 2, true}}
 		if len(settings) > 4 {
 			settings = []scalarSetting{settings[1], settings[len(settings)/2], settings[len(settings)-2], settings[len(settings)-1]}
 		}
@@ -307,7 +308,7 @@ func runCase(t *vlib.T, cs *caseSpec, mn *menus, inv invoker, reduced bool) {
 				ss.apply(&c)
 				for _, f := range fills {
 					if msg := runCall(&c, f, inv, &st); msg != "" {
-						sub := fmt.Sprintf("ld=%v inc=%v%s fill=%d", ldList(&c, mats), ic, ss.desc, f)
+						sub := fmt.Sprintf("ld=%v inc=%v%s fill=%v", ldList(&c, mats), ic, ss.desc, f)
 						if class := findingClass(&c, msg); class != "" {
 							t.FailClass(class, "%s [%s]: %s", cs.key(), sub, msg)
 						} else {
@@ -325,6 +326,7 @@ func runCase(t *vlib.T, cs *caseSpec, mn *menus, inv invoker, reduced bool) {
 	t.Count("returned_values_compared", st.retChecked)
 	t.Count("slots_checked_bitwise_unchanged", st.unchangedChecked)
 	t.Count("poisoned_unaddressed_slots", st.poisonSlots)
+	t.Count("finite_sentinel_unaddressed_slots", st.sentinelSlots)
 	t.Count("poisoned_write_only_slots", st.writeOnlySlots)
 	class := "no-result"
 	if st.written > 0 || (st.retChecked > 0 && cs.call.N > 0) {
